@@ -209,3 +209,11 @@ def reference_run(prog, env_keys):
             if k != SINK:
                 env[k] = app_val(m["f"], args, i)
     return sorted(env.items(), key=lambda kv: str(kv[0]))
+
+
+def prog_from_sx(text):
+    from common import parse_sx
+    out = []
+    for m in parse_sx(text)[1:]:
+        out.append({"ins": [parse_key(k) for k in m[1][1:]], "outs": [parse_key(k) for k in m[2][1:]], "f": int(m[3])})
+    return out
